@@ -325,6 +325,7 @@ fn kind_lines(k: &str, src: &str) -> Vec<String> {
         "notfound" => vec!["./nosuchcmd"],
         "execfail" => vec!["exec ./nosuchcmd"],
         "sig" => vec!["(selfkill)"],
+        "kill" => vec!["kill -s TERM $$"],
         "penv" => vec!["printenv a-b"],
         "obs" => vec![
             "echo \"0=$0 #=$# 1=$1 2=$2 rcv=$RCV\"",
@@ -420,9 +421,9 @@ fn pick<'a, R: Rng>(rng: &mut R, xs: &[&'a str]) -> &'a str {
 pub fn random_scenario<R: Rng>(rng: &mut R) -> Value {
     const SHELL_ITEMS: [&str; 11] = ["-c", "-s", "-i", "+i", "-m", "+m", "-e", "-l", "-a", "--posixlycorrect", "portable"];
     const RC_ITEMS: [&str; 7] = ["rc1", "rc2", "rc3", "rcno", "norc", "prof", "noprof"];
-    const KINDS: [&str; 18] = [
+    const KINDS: [&str; 19] = [
         "true", "false", "st7", "echo", "exit", "exit3", "synerr", "dot", "setbad", "sbredir", "asgerr", "experr", "cmddot",
-        "redir", "credir", "notfound", "execfail", "sig",
+        "redir", "credir", "notfound", "execfail", "sig", "kill",
     ];
     const SAFE: [&str; 6] = ["true", "false", "st7", "echo", "notfound", "sig"];
     const ENVV: [&str; 7] = ["", "/w/rc1", "$RCD/rc2", "${NORC-/w/rc1}", "/w/rc$((1+2))", "/w/norc", "${RCD}/rc2"];
